@@ -1,0 +1,63 @@
+//go:build verif
+
+package parser
+
+import "unsafe"
+
+// Synchronisation points of the lexer/parser pair, reported to VerifHook.
+const (
+	hkLexBefore = iota
+	hkLexAfter
+	hkRunStart
+	hkRunExitBegin
+	hkRunExitEnd
+	hkEmitBefore
+	hkEmitAfter
+	hkEmitCancel
+	hkPopWaitBefore
+	hkPopWaitAfter
+	hkPush
+	hkSpawn
+	hkJoinBefore
+	hkJoinAfter
+	hkError
+	hkCancelClosed
+	hkParseExit
+)
+
+// Exported names of the points, for the verification harness.
+const (
+	HkLexBefore     = hkLexBefore     // the parser is about to receive a token
+	HkLexAfter      = hkLexAfter      // the parser has received a token (or the channel was closed)
+	HkRunStart      = hkRunStart      // first statement of the lexer goroutine
+	HkRunExitBegin  = hkRunExitBegin  // the lexer goroutine is about to close its channels
+	HkRunExitEnd    = hkRunExitEnd    // the lexer goroutine has closed its channels
+	HkEmitBefore    = hkEmitBefore    // the lexer is about to hand a token over
+	HkEmitAfter     = hkEmitAfter     // the hand-over succeeded
+	HkEmitCancel    = hkEmitCancel    // the lexer was cancelled instead and bails out
+	HkPopWaitBefore = hkPopWaitBefore // the lexer waits for the parser to push a here-document
+	HkPopWaitAfter  = hkPopWaitAfter  // ... and was woken up
+	HkPush          = hkPush          // the parser has pushed a here-document
+	HkSpawn         = hkSpawn         // a lexer goroutine is about to be started
+	HkJoinBefore    = hkJoinBefore    // the outer lexer waits for a nested lexer to end
+	HkJoinAfter     = hkJoinAfter     // ... and it has ended
+	HkError         = hkError         // entry of error()
+	HkCancelClosed  = hkCancelClosed  // exit of error(): the lexer has been cancelled
+	HkParseExit     = hkParseExit     // ParseCommands is about to return
+)
+
+// VerifHook, when non-nil, is called at every synchronisation point with an
+// identifier of the lexer concerned. It must be set before the first parse.
+var VerifHook func(id uintptr, point int)
+
+func verifHook(l *lexer, point int) {
+	if h := VerifHook; h != nil {
+		h(uintptr(unsafe.Pointer(l)), point)
+	}
+}
+
+func verifHookH(h *heredoc, point int) {
+	if f := VerifHook; f != nil {
+		f(uintptr(unsafe.Pointer(h))-unsafe.Offsetof(lexer{}.heredoc), point)
+	}
+}
